@@ -283,6 +283,15 @@ pub fn to_hex(value: f64) -> String {
         value if value.is_zero() => format!("{sign_fmt}0x0.0p+0"),
         value if value.is_infinite() => format!("{sign_fmt}inf"),
         value if value.is_nan() => "nan".to_owned(),
+        value if value.is_subnormal() => {
+            // subnormals have no implicit leading one and share the smallest normal exponent
+            const FRACT_MASK: u64 = 0xf_ffff_ffff_ffff;
+            format!(
+                "{}0x0.{:013x}p-1022",
+                sign_fmt,
+                value.to_bits() & FRACT_MASK
+            )
+        }
         _ => {
             const BITS: i16 = 52;
             const FRACT_MASK: u64 = 0xf_ffff_ffff_ffff;
